@@ -1,7 +1,8 @@
 SPEC = {
     "claimed": True,
     "gen": ["consts", "bitfields", "huffman"],
-    "theorems": ['C04_all_histories6', 'C04_all_histories7', 'C04_bytes6', 'C04_step6', 'C04_step7', 'C04_refusal6', 'C04_refusal7', 'C04_nonvacuous'],
+    "props_files": ["C04", "C04v7"],
+    "theorems": ['C04_all_histories6', 'C04_all_histories7', 'C04_bytes6', 'C04_step6', 'C04_step7', 'C04_refusal6', 'C04_refusal7', 'C04_nonvacuous', 'C04_emitted_tokens7', 'C04_bytes7', 'C04_emitted_reads_back7', 'C04_control_size7', 'C04v7_nonvacuous'],
     "allowed_axioms": [],
     "extract": {
         "LibTw2.Model.Conn6": ["step", "needs_tick", "conn6_new"],
